@@ -18,6 +18,10 @@ theorem metaOr_wf (ps : PathSt) (h : PathWF ps) : MetaWF (metaOr ps) := by
   · rename_i m hm; exact h.mwf m hm
   · exact freshMeta_wf
 
+theorem metaOr_some (ps : PathSt) (m : Meta) (h : ps.md = some m) : metaOr ps = m := by unfold metaOr; rw [h]
+
+theorem metaOr_none (ps : PathSt) (h : ps.md = none) : metaOr ps = freshMeta := by unfold metaOr; rw [h]
+
 /-- versions of the metadata a write works on are versions of the stored metadata -/
 theorem metaOr_versions (ps : PathSt) (w : Nat) (vm : Ver) (h : (metaOr ps).versions w = some vm) :
     ∃ m, ps.md = some m ∧ m.versions w = some vm := by
@@ -360,41 +364,76 @@ theorem destroyVersions_wf (ps : PathSt) (vs : List Int) (h : PathWF ps) : PathW
       simp only [hnot]
       exact h.blob m w vm0 hm hv0 hd0
 
-theorem metaWrite_wf (cfg : Config) (ps : PathSt) (mx : Option Int) (cr dva : Option Bool) (h : PathWF ps) :
-    PathWF (metaWrite cfg ps mx cr dva).1 := by
-  unfold metaWrite
+/-! ### metadata PUT / PATCH: only settings change -/
+
+/-- `m'` has the counters and version entries of `m` (settings may differ) -/
+structure SameVersions (m m' : Meta) : Prop where
+  cur : m'.current = m.current
+  old : m'.oldest = m.oldest
+  vers : m'.versions = m.versions
+
+/-- a metadata PUT/PATCH either leaves the path alone or replaces the metadata by one with the same versions; an error
+    answer means the former -/
+def SettingsShape (ps ps' : PathSt) (r : Resp) : Prop :=
+  ps' = ps ∨ (∃ m', ps' = { ps with md := some m' } ∧ SameVersions (metaOr ps) m' ∧ (r = .nil ∨ r = .warn))
+
+theorem metaWrite_shape (cfg : Config) (ps : PathSt) (a : MetaPut) :
+    SettingsShape ps (metaWrite cfg ps a).1 (metaWrite cfg ps a).2 := by
+  unfold metaWrite SettingsShape
   split
-  · exact h
+  · exact Or.inl rfl
   · simp only
+    have hr : ∀ (c : Prop) [Decidable c], (if c then Resp.warn else Resp.nil) = .nil ∨ (if c then Resp.warn else Resp.nil) = .warn := by
+      intro c _; split
+      · exact Or.inr rfl
+      · exact Or.inl rfl
+    cases hmd : ps.md with
+    | none =>
+      simp only
+      split
+      · exact Or.inl rfl
+      · exact Or.inr ⟨_, rfl, ⟨by rw [metaOr_none ps hmd]; rfl, by rw [metaOr_none ps hmd]; rfl, by rw [metaOr_none ps hmd]; rfl⟩, hr _⟩
+    | some m =>
+      simp only
+      split
+      · exact Or.inl rfl
+      · exact Or.inr ⟨_, rfl, ⟨by rw [metaOr_some ps m hmd]; rfl, by rw [metaOr_some ps m hmd]; rfl, by rw [metaOr_some ps m hmd]; rfl⟩, hr _⟩
+
+theorem metaPatch_shape (cfg : Config) (ps : PathSt) (a : MetaPatchArgs) :
+    SettingsShape ps (metaPatch cfg ps a).1 (metaPatch cfg ps a).2 := by
+  unfold metaPatch SettingsShape
+  split
+  · exact Or.inl rfl
+  · cases hmd : ps.md with
+    | none => exact Or.inl rfl
+    | some m =>
+      simp only
+      split
+      · exact Or.inl rfl
+      · refine Or.inr ⟨_, rfl, ⟨by rw [metaOr_some ps m hmd]; rfl, by rw [metaOr_some ps m hmd]; rfl, by rw [metaOr_some ps m hmd]; rfl⟩, ?_⟩
+        split
+        · exact Or.inr rfl
+        · exact Or.inl rfl
+
+theorem settings_wf (ps : PathSt) (m' : Meta) (sv : SameVersions (metaOr ps) m') (h : PathWF ps) :
+    PathWF { ps with md := some m' } := by
+  have mwf := metaOr_wf ps h
+  constructor
+  · intro m2 hm2; cases hm2
     constructor
-    · intro m hm
-      simp only [Option.some.injEq] at hm
-      subst hm
-      cases hmd : ps.md with
-      | none =>
-        constructor
-        · intro w vm hv
-          cases mx <;> cases cr <;> cases dva <;> simp [freshMeta] at hv
-        · cases mx <;> cases cr <;> cases dva <;> simp [freshMeta]
-      | some m0 =>
-        have := h.mwf m0 hmd
-        constructor
-        · intro w vm hv
-          have hv0 : m0.versions w = some vm := by
-            cases mx <;> cases cr <;> cases dva <;> simpa using hv
-          have := this.bound w vm hv0
-          cases mx <;> cases cr <;> cases dva <;> simpa using this
-        · have := this.old_le
-          cases mx <;> cases cr <;> cases dva <;> simpa using this
-    · intro m w vm hm hv hd
-      simp only [Option.some.injEq] at hm
-      subst hm
-      cases hmd : ps.md with
-      | none => cases mx <;> cases cr <;> cases dva <;> simp [hmd, freshMeta] at hv
-      | some m0 =>
-        have hv0 : m0.versions w = some vm := by
-          cases mx <;> cases cr <;> cases dva <;> simpa [hmd] using hv
-        exact h.blob m0 w vm hmd hv0 hd
+    · intro w vm hv
+      rw [sv.vers] at hv
+      rw [sv.cur, sv.old]; exact mwf.bound w vm hv
+    · rw [sv.cur, sv.old]; exact mwf.old_le
+  · intro m2 w vm hm2 hv hd; cases hm2
+    rw [sv.vers] at hv
+    obtain ⟨m0, hm0, hv0⟩ := metaOr_versions ps w vm hv
+    exact h.blob m0 w vm hm0 hv0 hd
+
+theorem settingsShape_wf (ps ps' : PathSt) (r : Resp) (sh : SettingsShape ps ps' r) (h : PathWF ps) : PathWF ps' := by
+  rcases sh with e | ⟨m', e, sv, _⟩
+  · rw [e]; exact h
+  · rw [e]; exact settings_wf ps m' sv h
 
 theorem metaDelete_wf (ps : PathSt) (h : PathWF ps) : PathWF (metaDelete ps) := by
   unfold metaDelete; split
@@ -428,7 +467,8 @@ theorem stepF_wf (tx : Bool) (fault : Option Nat) (s : State) (op : Op) (h : WF 
     simp only [stepF]; split
     · exact h
     · exact setPath_wf _ _ _ h (destroyVersions_wf _ _ (h p))
-  | metaWrite p mx cr dva => exact setPath_wf _ _ _ h (metaWrite_wf _ _ _ _ _ (h p))
+  | metaWrite p a => exact setPath_wf _ _ _ h (settingsShape_wf _ _ _ (metaWrite_shape _ _ _) (h p))
+  | metaPatch p a => exact setPath_wf _ _ _ h (settingsShape_wf _ _ _ (metaPatch_shape _ _ _) (h p))
   | metaRead p => exact h
   | metaDelete p => exact setPath_wf _ _ _ h (metaDelete_wf _ (h p))
   | confWrite mx cr dva => exact h
